@@ -90,9 +90,10 @@ func (*Options).populateFilter returns (err)
     invariant @range 0 - 1 <= i && i < LineageLen(c) && o == old(o) && c == old(c) && o.GlobalConfig == old(o.GlobalConfig)
     invariant @begin (FirstSet(c, "begin", i + 1, LineageLen(c)) == 0 - 1 ==> o.FilterConfig.BeginningTime == old(o.FilterConfig.BeginningTime)) && (FirstSet(c, "begin", i + 1, LineageLen(c)) >= 0 ==> o.FilterConfig.BeginningTime != nil && fresh(o.FilterConfig.BeginningTime) && (IsDateKeyword(CtxString(LineageAt(c, FirstSet(c, "begin", i + 1, LineageLen(c))), "begin")) || ParseTimeOk(o.GlobalConfig.DateFormat, CtxString(LineageAt(c, FirstSet(c, "begin", i + 1, LineageLen(c))), "begin")) ==> *o.FilterConfig.BeginningTime == GTFS(o.GlobalConfig.Now, o.GlobalConfig.DateFormat, CtxString(LineageAt(c, FirstSet(c, "begin", i + 1, LineageLen(c))), "begin"))))
     invariant @end (FirstSet(c, "end", i + 1, LineageLen(c)) == 0 - 1 ==> o.FilterConfig.EndTime == old(o.FilterConfig.EndTime)) && (FirstSet(c, "end", i + 1, LineageLen(c)) >= 0 ==> o.FilterConfig.EndTime != nil && fresh(o.FilterConfig.EndTime) && (IsDateKeyword(CtxString(LineageAt(c, FirstSet(c, "end", i + 1, LineageLen(c))), "end")) || ParseTimeOk(o.GlobalConfig.DateFormat, CtxString(LineageAt(c, FirstSet(c, "end", i + 1, LineageLen(c))), "end")) ==> *o.FilterConfig.EndTime == GTFS(o.GlobalConfig.Now, o.GlobalConfig.DateFormat, CtxString(LineageAt(c, FirstSet(c, "end", i + 1, LineageLen(c))), "end"))))
+    pre { unfold FirstSet(c, "begin", LineageLen(c), LineageLen(c)); unfold FirstSet(c, "end", LineageLen(c), LineageLen(c)) }
+    unfold FirstSet(c, "begin", i, LineageLen(c))
+    unfold FirstSet(c, "end", i, LineageLen(c))
   }
-  ghost after call 1 Lineage { unfold FirstSet(c, "begin", LineageLen(c), LineageLen(c)); unfold FirstSet(c, "end", LineageLen(c), LineageLen(c)) }
-  ghost before call 2 Lineage { unfold FirstSet(c, "begin", i, LineageLen(c)); unfold FirstSet(c, "end", i, LineageLen(c)) }
 
 func (*Options).populateReporter
   props C15 C14 C08
@@ -124,9 +125,17 @@ func (*Options).populateReporter
     invariant @totals-only o.ReporterConfig.TotalsOnly == (old(o.ReporterConfig.TotalsOnly) || AnySet(c, "totals-only", i + 1, LineageLen(c)))
     invariant @shorten o.ReporterConfig.ShortenStrings == (old(o.ReporterConfig.ShortenStrings) || AnySet(c, "shorten", i + 1, LineageLen(c)))
     invariant @use-old-reg-reporter o.ReporterConfig.UseOldRegReporter == (old(o.ReporterConfig.UseOldRegReporter) || AnySet(c, "use-old-reg-reporter", i + 1, LineageLen(c)))
+    // proof hints at loop level (not bound to a particular call, so hoisting c.Lineage() keeps the proof)
+    pre { unfold AnySet(c, "csv", LineageLen(c), LineageLen(c)); unfold AnySet(c, "no-color", LineageLen(c), LineageLen(c)); unfold AnySet(c, "collapse-last", LineageLen(c), LineageLen(c)); unfold AnySet(c, "collapse", LineageLen(c), LineageLen(c)); unfold AnySet(c, "no-totals", LineageLen(c), LineageLen(c)); unfold AnySet(c, "totals-only", LineageLen(c), LineageLen(c)); unfold AnySet(c, "shorten", LineageLen(c), LineageLen(c)); unfold AnySet(c, "use-old-reg-reporter", LineageLen(c), LineageLen(c)) }
+    unfold AnySet(c, "csv", i, LineageLen(c))
+    unfold AnySet(c, "no-color", i, LineageLen(c))
+    unfold AnySet(c, "collapse-last", i, LineageLen(c))
+    unfold AnySet(c, "collapse", i, LineageLen(c))
+    unfold AnySet(c, "no-totals", i, LineageLen(c))
+    unfold AnySet(c, "totals-only", i, LineageLen(c))
+    unfold AnySet(c, "shorten", i, LineageLen(c))
+    unfold AnySet(c, "use-old-reg-reporter", i, LineageLen(c))
   }
-  ghost after call 1 Lineage { unfold AnySet(c, "csv", LineageLen(c), LineageLen(c)); unfold AnySet(c, "no-color", LineageLen(c), LineageLen(c)); unfold AnySet(c, "collapse-last", LineageLen(c), LineageLen(c)); unfold AnySet(c, "collapse", LineageLen(c), LineageLen(c)); unfold AnySet(c, "no-totals", LineageLen(c), LineageLen(c)); unfold AnySet(c, "totals-only", LineageLen(c), LineageLen(c)); unfold AnySet(c, "shorten", LineageLen(c), LineageLen(c)); unfold AnySet(c, "use-old-reg-reporter", LineageLen(c), LineageLen(c)) }
-  ghost before call 2 Lineage { unfold AnySet(c, "csv", i, LineageLen(c)); unfold AnySet(c, "no-color", i, LineageLen(c)); unfold AnySet(c, "collapse-last", i, LineageLen(c)); unfold AnySet(c, "collapse", i, LineageLen(c)); unfold AnySet(c, "no-totals", i, LineageLen(c)); unfold AnySet(c, "totals-only", i, LineageLen(c)); unfold AnySet(c, "shorten", i, LineageLen(c)); unfold AnySet(c, "use-old-reg-reporter", i, LineageLen(c)) }
 
 // ---------------------------------------------------------------------------------------------
 // Load (C16): every setting takes the command-line value, else its HR_* environment variable, else the
